@@ -411,12 +411,13 @@ fn pick<'a, T>(rng: &mut StdRng, xs: &'a [T]) -> &'a T {
 
 fn random_tree(rng: &mut StdRng) -> Tree {
     let mut nodes: Vec<Node> = vec![Node { p: "/w".into(), k: "d".into(), to: "".into() }];
-    let n = rng.gen_range(0..14);
+    let n = rng.gen_range(0..16);
+    let pool: Vec<&str> = (0..7).map(|_| *pick(rng, NAMES)).collect();
     for _ in 0..n {
         // parent: an existing directory of depth <= 3
         let dirs: Vec<String> = nodes.iter().filter(|x| x.k == "d" && x.p.matches('/').count() <= 3).map(|x| x.p.clone()).collect();
         let parent = pick(rng, &dirs).clone();
-        let name = *pick(rng, NAMES);
+        let name = *pick(rng, &pool);
         let p = format!("{parent}/{name}");
         if nodes.iter().any(|x| x.p == p) {
             continue;
@@ -428,7 +429,7 @@ fn random_tree(rng: &mut StdRng) -> Tree {
             ("d", String::new())
         } else {
             let targets = ["..", "../a", "sub", "a", "nope", ".", "../..", "/w", "/w/sub", "b/..", "../sub/a"];
-            let t = if rng.gen_bool(0.5) { pick(rng, &targets).to_string() } else { pick(rng, NAMES).to_string() };
+            let t = if rng.gen_bool(0.5) { pick(rng, &targets).to_string() } else { pick(rng, &pool).to_string() };
             ("l", t)
         };
         nodes.push(Node { p, k: k.into(), to });
@@ -438,48 +439,115 @@ fn random_tree(rng: &mut StdRng) -> Tree {
     Tree { cwd, nodes }
 }
 
-fn random_word(rng: &mut StdRng, tree: &Tree) -> Vec<Unit> {
-    const LITS: &[&str] = &[
-        "a", "b", ".", "-", "/", "*", "?", "[", "]", "!", "^", "[ab]", "[!a]", "[^b]", "[a-b]", "[!.]", "[.]", "[]]", "[[]", "[*]", "[]-]",
-        "[!]a]", "[[:alpha:]]", "[![:punct:]]", "sub", "ab", "..", "x.y", "[a", "a]", "**", "?*", "./", "../", "//", "/w/", "..a",
-        "[a-]", "[--a]",
+fn lit(s: &str) -> Unit {
+    Unit { k: "lit".into(), s: s.to_string() }
+}
+
+/// A bracket expression (or other one-character pattern) that matches `c`.
+fn pattern_for(rng: &mut StdRng, c: char) -> String {
+    match rng.gen_range(0..8) {
+        0 | 1 => "?".to_string(),
+        2 => match c {
+            ']' => "[]]".to_string(),
+            '!' | '^' => format!("[x{c}]"),
+            _ => format!("[{c}]"),
+        },
+        3 => "[!z]".to_string(),
+        4 => if c.is_ascii_lowercase() { "[a-z]".to_string() } else { "[!a-z]".to_string() },
+        5 => if c.is_ascii_alphabetic() { "[[:alpha:]]".to_string() } else { "[![:alpha:]]".to_string() },
+        6 => match c {
+            ']' => "[]x]".to_string(),
+            '!' | '^' | '-' => format!("[x{c}]"),
+            _ => format!("[{c}x]"),
+        },
+        _ => if c == '-' { "[!a]".to_string() } else { format!("[^{}]", if c == 'q' { 'r' } else { 'q' }) },
+    }
+}
+
+fn quoted(rng: &mut StdRng, s: &str) -> Vec<Unit> {
+    match rng.gen_range(0..3) {
+        0 => vec![Unit { k: "sq".into(), s: s.to_string() }],
+        1 => vec![Unit { k: "dq".into(), s: s.to_string() }],
+        _ => s.chars().map(|c| Unit { k: "bs".into(), s: c.to_string() }).collect(),
+    }
+}
+
+/// One pathname component aimed at the name `name`.
+fn random_component(rng: &mut StdRng, name: &str) -> Vec<Unit> {
+    const GENERIC: &[&str] = &[
+        "*", "?", "??", "*?", "[ab]", "[!a]", "[^b]*", "[a-b]", "[!.]*", "[.]*", ".*", "*.", "[]]", "[[]", "[*]", "[]-]", "[!]a]", "[a", "a]",
+        "**", "[[:alpha:]]*", "[![:punct:]]", "..", ".", "", "[a-]", "[--a]", "*[!a]", "?*[]b]", "[!-]*", "[[:punct:]]", ".[!.]*", ".?", "[.]?",
     ];
-    const QUOTED: &[&str] = &["*", "?", "[", "]", "/", ".", "a", "[a]", "*a", "a*", "..", "-", "!", "\\"];
-    const VALUES: &[&str] = &["*", "?", "[ab]", "a*", "*/", "?/", "\\*", "\\?", "[!a]*", "sub/*", ".*", "\\[a]", "a\\b", "\\.a", "[a\\]b]", "*\\", "a"];
-    let n = rng.gen_range(1..=6);
+    const VALUES: &[&str] = &["*", "?", "[ab]", "a*", "\\*", "\\?", "[!a]*", ".*", "\\[a]", "a\\b", "\\.a", "[a\\]b]", "*\\", "a", "?\\*", "*\\a"];
+    match rng.gen_range(0..20) {
+        0..=3 => vec![lit(name)],
+        4..=6 => quoted(rng, name),
+        7..=13 => {
+            // the name with some characters replaced by patterns that match them
+            let mut us = vec![];
+            let chars: Vec<char> = name.chars().collect();
+            let mut i = 0;
+            while i < chars.len() {
+                let c = chars[i];
+                match rng.gen_range(0..10) {
+                    0..=2 => us.push(lit(&pattern_for(rng, c))),
+                    3 => {
+                        us.push(lit("*"));
+                        i += rng.gen_range(0..=chars.len() - i - 1);
+                    }
+                    4 => us.extend(quoted(rng, &c.to_string())),
+                    5 => us.push(Unit { k: if rng.gen_bool(0.7) { "var" } else { "dqvar" }.into(), s: pattern_for(rng, c) }),
+                    _ => {
+                        if "*?[]!^-.".contains(c) && rng.gen_bool(0.5) {
+                            us.extend(quoted(rng, &c.to_string()));
+                        } else {
+                            us.push(lit(&c.to_string()));
+                        }
+                    }
+                }
+                i += 1;
+            }
+            us
+        }
+        14..=17 => {
+            let g = *pick(rng, GENERIC);
+            if g.is_empty() { vec![] } else { vec![lit(g)] }
+        }
+        _ => vec![Unit { k: if rng.gen_bool(0.8) { "var" } else { "dqvar" }.into(), s: pick(rng, VALUES).to_string() }],
+    }
+}
+
+fn random_word(rng: &mut StdRng, tree: &Tree) -> Vec<Unit> {
     let mut us: Vec<Unit> = vec![];
-    if rng.gen_range(0..12) == 0 {
-        let homes = ["/w", "/w/*", "/w/sub", "/w/[ab]", "/w/?"];
-        us.push(Unit { k: "tilde".into(), s: pick(rng, &homes).to_string() });
-        if rng.gen_bool(0.8) {
-            us.push(Unit { k: "lit".into(), s: "/".into() });
-        } else {
-            return us;
+    match rng.gen_range(0..20) {
+        0 | 1 => us.push(lit("/w/")),
+        2 | 3 => us.push(lit("./")),
+        4 => us.push(lit("../")),
+        5 => us.push(lit("//w//")),
+        6 => {
+            let homes = ["/w", "/w/*", "/w/sub", "/w/[ab]", "/w/?"];
+            us.push(Unit { k: "tilde".into(), s: pick(rng, &homes).to_string() });
+            us.push(lit("/"));
+        }
+        _ => {}
+    }
+    // follow a random path of the tree (so that components tend to hit)
+    let target = pick(rng, &tree.nodes).p.clone();
+    let names: Vec<&str> = target.split('/').filter(|s| !s.is_empty()).skip(1).collect();
+    let ncomp = rng.gen_range(1..=3);
+    for j in 0..ncomp {
+        let name = if j < names.len() && rng.gen_bool(0.8) { names[j] } else { *pick(rng, NAMES) };
+        us.extend(random_component(rng, name));
+        if j + 1 < ncomp || rng.gen_range(0..6) == 0 {
+            if rng.gen_range(0..8) == 0 {
+                us.push(Unit { k: "dq".into(), s: "/".into() });
+            } else {
+                us.push(lit("/"));
+            }
         }
     }
-    for _ in 0..n {
-        let r = rng.gen_range(0..20);
-        let u = if r < 11 {
-            Unit { k: "lit".into(), s: pick(rng, LITS).to_string() }
-        } else if r < 13 {
-            // a name of the tree, so that literal components hit
-            let nd = pick(rng, &tree.nodes);
-            let name = nd.p.rsplit('/').next().unwrap().to_string();
-            Unit { k: if rng.gen_bool(0.5) { "sq" } else { "dq" }.into(), s: name }
-        } else if r < 14 {
-            let q: Vec<&&str> = QUOTED.iter().filter(|s| s.chars().count() == 1).collect();
-            Unit { k: "bs".into(), s: pick(rng, &q).to_string() }
-        } else if r < 15 {
-            Unit { k: "sq".into(), s: pick(rng, QUOTED).to_string() }
-        } else if r < 16 {
-            let q: Vec<&&str> = QUOTED.iter().filter(|s| !s.contains('\\')).collect();
-            Unit { k: "dq".into(), s: pick(rng, &q).to_string() }
-        } else if r < 19 {
-            Unit { k: "var".into(), s: pick(rng, VALUES).to_string() }
-        } else {
-            Unit { k: "dqvar".into(), s: pick(rng, VALUES).to_string() }
-        };
-        us.push(u);
+    if us.is_empty() {
+        us.push(lit("*"));
     }
     us
 }
@@ -552,6 +620,33 @@ fn redo(args: &[String]) {
             continue;
         }
         let v: Value = serde_json::from_str(&line).expect("json");
+        if v.get("us").is_some() {
+            // a record of `random`: run it again, emit records in the same format
+            let join = |x: &Value| x.as_array().unwrap().iter().map(|s| s.as_str().unwrap()).collect::<Vec<_>>().join("/");
+            let tree = Tree {
+                cwd: format!("/{}", join(&v["cwd"])),
+                nodes: v["nodes"].as_array().unwrap().iter().map(|n| Node {
+                    p: format!("/{}", join(&n["p"])), k: n["k"].as_str().unwrap().to_string(), to: join(&n["to"]),
+                }).collect(),
+            };
+            let us = units_from_json(&v["us"]);
+            let noglob = v["ng"].as_bool().unwrap_or(false);
+            let modes: &[Mode] = match v["mode"].as_str() {
+                Some("sim") => &[Mode::Sim],
+                Some("real") => &[Mode::Real],
+                _ => &[Mode::Sim, Mode::Real],
+            };
+            for m in modes {
+                let r = run_batch(&tree, &[(0, us.as_slice())], noglob, *m);
+                let mut rec = v.clone();
+                rec["mode"] = json!(m.name());
+                rec["pn"] = json!(!r.got.contains_key(&0));
+                rec["out"] = json!(r.got.get(&0).cloned().unwrap_or_default());
+                rec["outcome"] = json!(r.outcome);
+                writeln!(out, "{rec}").unwrap();
+            }
+            continue;
+        }
         let tree = Tree::from_json(&v["tree"]);
         let us = units_from_json(&v["units"]);
         let mode = if v["mode"] == "real" { Mode::Real } else { Mode::Sim };
